@@ -15,7 +15,8 @@ def suites : List (String × Suite) := [
   ("c09", Tally.Drv.C09.suite),
   ("c15", Tally.Drv.C15.suite),
   ("c17", Tally.Drv.C17.suite),
-  ("c14", Tally.Drv.C14.suite)
+  ("c14", Tally.Drv.C14.suite),
+  ("m3", Tally.Drv.M3.suite)
 ]
 
 partial def loop (inp : IO.FS.Stream) (out : IO.FS.Stream) (s : Suite) (st : s.σ) : IO Unit := do
